@@ -8,7 +8,9 @@ amplitudes c = sqrt(1-loss), s = sqrt(loss) as exact rationals, builds the enlar
 model of `_simulate_losses_with_beam_splitters` and through the direct specification (two-mode block on
 (mode, fresh mode)) —, checks they are equal, evaluates the exact Fock-space distribution and marginalises.
 `DensityMatrix.apply_loss` is compared on the diagonal with the model of the Kraus weights and with the LC
-simulation of the same loss.  A direct oracle independent of Lean (numpy permanents of the enlarged lossless
+simulation of the same loss.  Sessions keep ONE Processor / simulator alive over several queries while loss and
+phase Parameters, the component list, the filter and the input change in between: every answer must be the one
+for the values at the time of the query (Lean: `session_history_independent`).  A direct oracle independent of Lean (numpy permanents of the enlarged lossless
 circuit) classifies disagreements.
 """
 from __future__ import annotations
@@ -1127,8 +1129,16 @@ def run(chk: core.Check):
                 "SimulatorFactory.build(list).probs/probs_svd, backends SLOS/Naive/SLAP, photon filter 0/1/2, 10% "
                 "malformed; distinct = (m, entry point, positions+kinds+loss values, filter); non-trivial = at least two "
                 "channels interleaved with a unitary, one on an interior mode or two on the same mode. "
-                "DensityMatrix.apply_loss cases: distinct (m, source kind, modes, p, states), non-trivial = a lossy "
-                "mode is populated and 0 < p < 1")
+                "Sessions (quick 90 / thorough 600): ONE long-lived Processor or SimulatorFactory.build(list) simulator "
+                "queried after each of 1-4 steps: the loss of a channel given by a variable Parameter (possibly shared "
+                "by several channels) or the phase of a PS changes (set_value, incl. to 0 and 1; an out-of-range value "
+                "must be rejected and change nothing), a component is added (Processor.add / list.append), the list is "
+                "edited in place (replace, delete) and handed again to set_circuit as the same object, the photon "
+                "filter or the input changes, or nothing changes; every answer is compared with the model for the "
+                "values at the time of the query, a failing one also with a fresh object; distinct = (program, steps), "
+                "non-trivial = a value or the list changes between two queries. "
+                "DensityMatrix.apply_loss cases (30% with 1-2 further losses on the same object): distinct (m, source "
+                "kind, modes, p, states, further losses), non-trivial = a lossy mode is populated and 0 < p < 1")
     chk.assumptions = [
         "leaf matrices are taken from each leaf's own compute_unitary() (their correctness is C14)",
         "the strong-simulation backends return the Fock-space probabilities of the matrix they are given (C02)",
@@ -1160,7 +1170,7 @@ def run(chk: core.Check):
         else:
             prog = gen_program(rng, chk, max_lc=max_lc)
         handle(chk, prog)
-    for i in range(chk.pick(90, 900)):
+    for i in range(chk.pick(90, 600)):
         handle_session(chk, gen_session(rng, chk, max_lc=chk.pick(3, 4)))
     for i in range(chk.pick(120, 1200)):
         case = gen_dm_case(rng)
